@@ -17,6 +17,9 @@ token0 `L·|p − q|/(p·q)` and token1 `L·|p − q|`; all comparisons are cros
   `CL.InGe zfo …` = `Ge0` for zero-for-one (token0 in) else `Ge1`;  `CL.OutLe zfo …` = `Le1` for zero-for-one else `Le0`.
 -/
 import OsmoVerif.Proofs.CLRoundQ
+import OsmoVerif.Proofs.CLCurveReach
+import OsmoVerif.Proofs.CLShortfall
+import OsmoVerif.Proofs.CLThereBack
 
 namespace OsmoVerif.Props.C03
 open OsmoVerif.Num OsmoVerif.Spec OsmoVerif.Gen OsmoVerif.CL
@@ -359,7 +362,7 @@ the sums ranging over the steps taken.  Prices stay positive along the whole pat
 side conditions `CL.StepOK` are pool invariants the swap code does not establish itself: liquidity is
 non-negative in every bucket visited and — needed for in-given-out only — the step target lies in the
 swap direction (tick/sqrt-price consistency of the pool). -/
--- Unconditional form (not proved here; what is missing): discharge `StepOK` from pool invariants, i.e.
+-- Unconditional form: proved in §8 below (`swap_vs_exact_curve_reachable`), which discharges `StepOK` from pool invariants, i.e.
 -- (a) `0 ≤ liquidity` in every bucket visited (net-liquidity bookkeeping of positions, CLPool model), and
 -- (b) for in-given-out, `target` on the swap side of the current sqrt price: needs tick ↔ sqrt-price
 --     consistency of the pool, sortedness of the initialised ticks, monotonicity of `tickToSqrtPrice`
@@ -482,5 +485,318 @@ example : execSwap false false (3 * 10 ^ 15) pool0 ticks0 60000 =
 -- running out of initialised ticks is an error for both
 example : execSwap true false (3 * 10 ^ 15) pool0 ticks0 600000 = none ∧
     estimateSwap true false (3 * 10 ^ 15) pool0 ticks0 600000 = none := by decide +kernel
+
+/-! ## 8. reachable pool states: the curve comparison without side conditions
+
+Reachability is that of C07/C01: `CLBook.run (CLBook.initPool s f) ops` for any list `ops` of create / withdraw /
+add-to-position / transfer / swap messages (failed messages are no-ops), tick spacing `0 < s`, spread factor
+`CLBook.SpfOK f` (`0 ≤ f ≤ 1/2`; every authorised spread factor, `C07.authorized_parameters_ok`).  The swap is any
+`computeSwap` with the pool's own price, tick, liquidity, tick list and spread factor and the price limit of an
+executed swap (`execPriceLimit zfo`, what `CLPool.swap` = `execSwapS`/`execSwap` pass) or of an estimate (`0`). -/
+
+section Reachable
+open OsmoVerif.CLPool OsmoVerif.CLBook OsmoVerif.CLSolv
+
+/-- every reachable state satisfies the C07 invariant and keeps its spread factor. -/
+theorem reachable_state_inv {s f : Int} (hs : 0 < s) (hf : SpfOK f) (ops : List Op) :
+    Inv (run (initPool s f) ops) ∧ SpfOK (run (initPool s f) ops).spf := by
+  have h0 : Inv (initPool s f) := ⟨initPool_core s f, initPool_price f hs, initPool_active s f⟩
+  have key : ∀ (ops : List Op) (p : Pool), Inv p → SpfOK p.spf → Inv (run p ops) ∧ SpfOK (run p ops).spf := by
+    intro ops
+    induction ops with
+    | nil => intro p hi hp; exact ⟨hi, hp⟩
+    | cons op ops ih =>
+      intro p hi hp
+      exact ih (step p op) (hi.step op hp) (by rw [(step_spf p op hi.core).1]; exact hp)
+  exact key ops _ h0 hf
+
+/-- C03, whole swap, UNCONDITIONAL: for every pool state that satisfies the C07 invariant (in particular every
+reachable one) and every swap computed on it — exact-in or exact-out, either direction, executed or estimated —
+the swap is a run `tr` of within-bucket steps along a contiguous price path, EVERY step satisfies `StepOK`
+(non-negative liquidity in its bucket, target in the swap direction), and
+  `amountOut ≤ Σ exact out of the steps`,  `Σ exact in of the steps ≤ amountIn`
+(rational exact curve amounts of each step's bucket between the step's actual start and end price). -/
+theorem swap_vs_exact_curve_of_invariant {p : Pool} (hinv : Inv p) (hspf : SpfOK p.spf) {ogi zfo : Bool}
+    {pl specified : Int} {r : SwapOut} (hpl : pl = 0 ∨ pl = execPriceLimit zfo)
+    (h : computeSwap ogi zfo p.spf pl ⟨p.sqrtPrice, p.tick, p.liquidity⟩ (tickList p) specified = some r) :
+    ∃ (limit : Int) (tr : List StepRec) (st' : SwapSt),
+      Run ogi zfo p.spf limit
+        { remaining := specified * P18, calculated := 0, pool := ⟨p.sqrtPrice, p.tick, p.liquidity⟩, spreadTotal := 0,
+          noProgress := 0 } tr st' ∧
+      Path p.sqrtPrice tr r.pool.sqrtPrice ∧ tr.length = r.steps ∧
+      (∀ e ∈ tr, StepOK ogi zfo e.st.pool.sqrtPrice e.target e.st.pool.liquidity) ∧
+      (r.amountOut : ℚ) * 10 ^ 18 ≤ sumExactOut zfo tr ∧ sumExactIn zfo tr ≤ (r.amountIn : ℚ) * 10 ^ 18 :=
+  swap_vs_exact_curve_of_inv hinv hspf hpl h
+
+theorem swap_vs_exact_curve_reachable {s f : Int} (hs : 0 < s) (hf : SpfOK f) (ops : List Op) {ogi zfo : Bool}
+    {pl specified : Int} {r : SwapOut} (hpl : pl = 0 ∨ pl = execPriceLimit zfo)
+    (h : computeSwap ogi zfo (run (initPool s f) ops).spf pl
+      ⟨(run (initPool s f) ops).sqrtPrice, (run (initPool s f) ops).tick, (run (initPool s f) ops).liquidity⟩
+      (tickList (run (initPool s f) ops)) specified = some r) :
+    ∃ (limit : Int) (tr : List StepRec) (st' : SwapSt),
+      Run ogi zfo (run (initPool s f) ops).spf limit
+        { remaining := specified * P18, calculated := 0,
+          pool := ⟨(run (initPool s f) ops).sqrtPrice, (run (initPool s f) ops).tick, (run (initPool s f) ops).liquidity⟩,
+          spreadTotal := 0, noProgress := 0 } tr st' ∧
+      Path (run (initPool s f) ops).sqrtPrice tr r.pool.sqrtPrice ∧ tr.length = r.steps ∧
+      (∀ e ∈ tr, StepOK ogi zfo e.st.pool.sqrtPrice e.target e.st.pool.liquidity) ∧
+      (r.amountOut : ℚ) * 10 ^ 18 ≤ sumExactOut zfo tr ∧ sumExactIn zfo tr ≤ (r.amountIn : ℚ) * 10 ^ 18 :=
+  swap_vs_exact_curve_of_inv (reachable_state_inv hs hf ops).1 (reachable_state_inv hs hf ops).2 hpl h
+
+/-- the same for a swap EXECUTED through the pool's own swap operation (`SwapExactAmountIn/Out`). -/
+theorem executed_swap_vs_exact_curve_reachable {s f : Int} (hs : 0 < s) (hf : SpfOK f) (ops : List Op)
+    {ogi zfo : Bool} {specified ain aout fee : Int} {p' : Pool}
+    (h : CLPool.swap (run (initPool s f) ops) ogi zfo specified = some (p', ain, aout, fee)) :
+    ∃ (tr : List StepRec),
+      Path (run (initPool s f) ops).sqrtPrice tr p'.sqrtPrice ∧
+      (∀ e ∈ tr, StepOK ogi zfo e.st.pool.sqrtPrice e.target e.st.pool.liquidity) ∧
+      (aout : ℚ) * 10 ^ 18 ≤ sumExactOut zfo tr ∧ sumExactIn zfo tr ≤ (ain : ℚ) * 10 ^ 18 := by
+  obtain ⟨r, _, hex, e1, e2, _, _, e3, _⟩ := swap_bal h
+  obtain ⟨limit, tr, st', _, hpath, _, hok, ho, hi⟩ :=
+    swap_vs_exact_curve_reachable hs hf ops (Or.inr rfl) (execSwap_spec hex)
+  exact ⟨tr, by rw [e3]; exact hpath, hok, by rw [e2]; exact ho, by rw [e1]; exact hi⟩
+
+/-- non-vacuity: the state reached by two creations with OVERLAPPING ranges (alice on [−1000, 1000), bob on
+[0, 2000); current price exactly on bob's lower tick 0), and swaps on it that cross an initialised tick:
+one-for-zero exact-in 1 500 000 crosses tick 1000 (alice leaves), exact-out 1 400 000 likewise, zero-for-one
+exact-in 60 000 crosses tick 0 at once (bob leaves). -/
+example :
+    let p := run demoInit (demoOps.take 2)
+    p.positions = [⟨1, "alice", -1000, 1000, 2001499875062460257502969826⟩, ⟨2, "bob", 0, 2000, 500749875124843813046785138⟩] ∧
+    p.tick = 0 ∧ p.sqrtPrice = 10 ^ 36 ∧
+    computeSwap true false p.spf 0 ⟨p.sqrtPrice, p.tick, p.liquidity⟩ (tickList p) 1500000 =
+      some ⟨1500000, 1497504, 1500000000000000000000,
+        ⟨1000994507237732597832529718031126170, 1990, 500749875124843813046785138⟩, 2, 1⟩ ∧
+    computeSwap false false p.spf (execPriceLimit false) ⟨p.sqrtPrice, p.tick, p.liquidity⟩ (tickList p) 1400000 =
+      some ⟨1402224, 1400000, 1402223223223224622642,
+        ⟨1000799440591246664722928910808755021, 1599, 500749875124843813046785138⟩, 2, 1⟩ ∧
+    computeSwap true true p.spf 0 ⟨p.sqrtPrice, p.tick, p.liquidity⟩ (tickList p) 60000 =
+      some ⟨60000, 59938, 60000000000000000000,
+        ⟨999970053355613492107963673895394170, -599, 2001499875062460257502969826⟩, 2, 1⟩ := by
+  decide +kernel
+
+/-- … and the theorem instantiated on the first of them. -/
+example : ∃ (tr : List StepRec), tr.length = 2 ∧
+    (∀ e ∈ tr, StepOK true false e.st.pool.sqrtPrice e.target e.st.pool.liquidity) ∧
+    ((1497504 : Int) : ℚ) * 10 ^ 18 ≤ sumExactOut false tr ∧ sumExactIn false tr ≤ ((1500000 : Int) : ℚ) * 10 ^ 18 := by
+  have h : computeSwap true false (run (initPool 100 1000000000000000) (demoOps.take 2)).spf 0
+      ⟨(run (initPool 100 1000000000000000) (demoOps.take 2)).sqrtPrice,
+        (run (initPool 100 1000000000000000) (demoOps.take 2)).tick,
+        (run (initPool 100 1000000000000000) (demoOps.take 2)).liquidity⟩
+      (tickList (run (initPool 100 1000000000000000) (demoOps.take 2))) 1500000 =
+      some ⟨1500000, 1497504, 1500000000000000000000,
+        ⟨1000994507237732597832529718031126170, 1990, 500749875124843813046785138⟩, 2, 1⟩ := by decide +kernel
+  obtain ⟨_, tr, _, _, _, hlen, hok, ho, hi⟩ :=
+    swap_vs_exact_curve_reachable (s := 100) (f := 1000000000000000) (by decide) ⟨by decide, by decide⟩
+      (demoOps.take 2) (Or.inl rfl) h
+  exact ⟨tr, hlen, hok, ho, hi⟩
+
+end Reachable
+
+/-! ## 9. bounded rounding: how far the result can be from the exact curve
+
+All amounts raw 18-decimal (`10^18` = one token), compared with the exact curve between the ACTUAL start and end
+sqrt price of every step (`sumExactIn/sumExactOut`; the rounding of the next sqrt price moves the end price of a
+step, which is part of the path).  Per step:
+* the amount OUT is the truncation (18 decimals) of a round-down delta: it is less than `outLoss` raw units below
+  the exact amount — `1` for token1, `1 + (10^72/(p·q) + 10^36/min p q)/10^18` for token0 (three nested floors at
+  36 decimals; `< 1 + 2·10^-6` for sqrt prices ≥ 10^-6);
+* the amount IN is the ceiling of a round-up delta that is a WHOLE number of tokens (`QuoRoundUpNextIntMut`,
+  `Ceil`): it is less than `inGain` = `10^18` (token1) resp. `10^18 + 10^54/(p·q)` (token0) raw units above the exact
+  amount — one whole token per step.
+Whole swap: one more token for the final `TruncateInt` / `Ceil`. -/
+
+section Rounding
+open OsmoVerif.CLPool OsmoVerif.CLBook OsmoVerif.CLSolv
+
+/-- the explicit bounds. -/
+theorem rounding_bounds_def (zfo : Bool) (p q m P spf : Int) :
+    outLoss zfo p q = (if zfo then 1 else 1 + (10 ^ 72 / ((p : ℚ) * q) + 10 ^ 36 / ((min p q : Int) : ℚ)) / 10 ^ 18) ∧
+    inGain zfo p q = (if zfo then 10 ^ 18 + 10 ^ 54 / ((p : ℚ) * q) else 10 ^ 18) ∧
+    outLossU zfo m = (if zfo then 1 else 1 + (10 ^ 72 / ((m : ℚ) * m) + 10 ^ 36 / (m : ℚ)) / 10 ^ 18) ∧
+    inGainU zfo m = (if zfo then 10 ^ 18 + 10 ^ 54 / ((m : ℚ) * m) else 10 ^ 18) ∧
+    pathFloor zfo P = (if zfo then 1000000000000000000000000000000 else P) ∧
+    feeRate spf = (spf : ℚ) / (10 ^ 18 - spf) + 1 / 10 ^ 18 := ⟨rfl, rfl, rfl, rfl, rfl, rfl⟩
+
+/-- one out-given-in step: the amount out is less than `outLoss` raw units below the exact curve. -/
+theorem step_out_shortfall_bounded {zfo : Bool} {spf sp target liq rem : Int} {r : StepResult}
+    (hsp : 0 < sp) (hn : 0 < r.sqrtPriceNext) (hl : 0 ≤ liq)
+    (h : stepOutGivenIn zfo spf sp target liq rem = some r) :
+    exactOut zfo liq r.sqrtPriceNext sp - outLoss zfo r.sqrtPriceNext sp < (r.amountOther : ℚ) :=
+  stepOutGivenIn_out_lower hsp hn hl h
+
+/-- one step of either kind: the amount in is less than `inGain` raw units above the exact curve. -/
+theorem step_in_excess_bounded {ogi zfo : Bool} {spf sp target liq rem : Int} {r : StepResult}
+    (hsp : 0 < sp) (hn : 0 < r.sqrtPriceNext)
+    (h : (if ogi then stepOutGivenIn zfo spf sp target liq rem else stepInGivenOut zfo spf sp target liq rem) = some r) :
+    ((if ogi then r.amountSpecified else r.amountOther : Int) : ℚ) <
+      exactIn zfo liq r.sqrtPriceNext sp + inGain zfo r.sqrtPriceNext sp :=
+  stepOf_in_upper (ogi := ogi) hsp hn h
+
+/-- the spread charge computed from an amount in exceeds `amountIn·spf/(1−spf)` by less than
+`amountIn·10^-18 + 1` raw units. -/
+theorem spreadCharge_lt {amountIn spf c : Int} (ha : 0 ≤ amountIn) (hs0 : 0 ≤ spf) (hs1 : spf < P18)
+    (h : spreadChargeFromAmountIn amountIn spf = some c) :
+    (c : ℚ) < amountIn * ((spf : ℚ) / (10 ^ 18 - spf) + 1 / 10 ^ 18) + 1 :=
+  spreadChargeFromAmountIn_lt ha hs0 hs1 h
+
+/-- C03, bounded rounding of the whole swap, for every state that satisfies the C07 invariant and every swap
+(executed or estimated), `m = pathFloor zfo p.sqrtPrice` the lowest sqrt price the path can visit:
+* both kinds:  `(amountIn − 1)·10^18 < Σ exact in + steps·inGainU zfo m + Σ charges`;
+* exact-in:    `Σ exact out − steps·outLossU zfo m − 10^18 < amountOut·10^18`  (and `amountIn ≤ specified`,
+  `swap_specified_side_bounded`; `amountOut·10^18 ≤ Σ exact out`, `swap_vs_exact_curve_reachable`);
+* exact-out:   `Σ charges ≤ Σ in·feeRate spf + steps` and hence
+               `(amountIn − 1)·10^18 < (Σ exact in + steps·inGainU zfo m)·(1 + feeRate spf) + steps`
+  (the exact curve with the same spread factor prescribes `Σ exact in·(1 + spf/(1−spf))`). -/
+theorem swap_shortfall_bounded {p : Pool} (hinv : Inv p) (hspf : SpfOK p.spf) {ogi zfo : Bool}
+    {pl specified : Int} {r : SwapOut} (hpl : pl = 0 ∨ pl = execPriceLimit zfo)
+    (h : computeSwap ogi zfo p.spf pl ⟨p.sqrtPrice, p.tick, p.liquidity⟩ (tickList p) specified = some r) :
+    ∃ (limit : Int) (tr : List StepRec) (st' : SwapSt),
+      Run ogi zfo p.spf limit
+        { remaining := specified * P18, calculated := 0, pool := ⟨p.sqrtPrice, p.tick, p.liquidity⟩, spreadTotal := 0,
+          noProgress := 0 } tr st' ∧
+      Path p.sqrtPrice tr r.pool.sqrtPrice ∧ tr.length = r.steps ∧
+      (∀ e ∈ tr, StepOK ogi zfo e.st.pool.sqrtPrice e.target e.st.pool.liquidity) ∧
+      ((r.amountOut : ℚ) * 10 ^ 18 ≤ sumExactOut zfo tr ∧ sumExactIn zfo tr ≤ (r.amountIn : ℚ) * 10 ^ 18) ∧
+      ((r.amountIn : ℚ) - 1) * 10 ^ 18 <
+        sumExactIn zfo tr + r.steps * inGainU zfo (pathFloor zfo p.sqrtPrice) + sumCharge tr ∧
+      (ogi = true →
+        sumExactOut zfo tr - r.steps * outLossU zfo (pathFloor zfo p.sqrtPrice) - 10 ^ 18 < (r.amountOut : ℚ) * 10 ^ 18) ∧
+      (ogi = false →
+        (sumCharge tr : ℚ) ≤ (sumIn ogi tr : ℚ) * feeRate p.spf + r.steps ∧
+        ((r.amountIn : ℚ) - 1) * 10 ^ 18 <
+          (sumExactIn zfo tr + r.steps * inGainU zfo (pathFloor zfo p.sqrtPrice)) * (1 + feeRate p.spf) + r.steps) :=
+  swap_rounding_bounded_of_inv hinv hspf hpl h
+
+/-- the same for reachable states, with numbers: when the path stays at sqrt prices ≥ 10^-6 (always for
+zero-for-one: the execution floor; for one-for-zero when the pool's price is), an exact-in swap pays out
+  `Σ exact out − 1 token − steps·(1 + 2·10^-6)·10^-18 token < amountOut ≤ Σ exact out`
+and a swap of either kind charges
+  `Σ exact in ≤ amountIn < Σ exact in + Σ charges + (steps + 1) tokens + steps·10^-24 token`. -/
+theorem swap_shortfall_bounded_reachable {s f : Int} (hs : 0 < s) (hf : SpfOK f) (ops : List Op) {ogi zfo : Bool}
+    {pl specified : Int} {r : SwapOut} (hpl : pl = 0 ∨ pl = execPriceLimit zfo)
+    (hfloor : zfo = true ∨ 1000000000000000000000000000000 ≤ (run (initPool s f) ops).sqrtPrice)
+    (h : computeSwap ogi zfo (run (initPool s f) ops).spf pl
+      ⟨(run (initPool s f) ops).sqrtPrice, (run (initPool s f) ops).tick, (run (initPool s f) ops).liquidity⟩
+      (tickList (run (initPool s f) ops)) specified = some r) :
+    ∃ (tr : List StepRec),
+      Path (run (initPool s f) ops).sqrtPrice tr r.pool.sqrtPrice ∧ tr.length = r.steps ∧
+      (r.amountOut : ℚ) * 10 ^ 18 ≤ sumExactOut zfo tr ∧ sumExactIn zfo tr ≤ (r.amountIn : ℚ) * 10 ^ 18 ∧
+      ((r.amountIn : ℚ) - 1) * 10 ^ 18 < sumExactIn zfo tr + r.steps * (10 ^ 18 + 1 / 10 ^ 6) + sumCharge tr ∧
+      (ogi = true → sumExactOut zfo tr - r.steps * (1 + 2 / 10 ^ 6) - 10 ^ 18 < (r.amountOut : ℚ) * 10 ^ 18) := by
+  obtain ⟨hinv, hspf⟩ := reachable_state_inv hs hf ops
+  obtain ⟨limit, tr, st', hrun, hpath, hlen, _, ⟨ho, hi⟩, hin, hout, _⟩ := swap_rounding_bounded_of_inv hinv hspf hpl h
+  have hm : 1000000000000000000000000000000 ≤ pathFloor zfo (run (initPool s f) ops).sqrtPrice := by
+    unfold pathFloor
+    rcases hfloor with rfl | hge
+    · simp
+    · split
+      · exact Int.le_refl _
+      · exact hge
+  have g1 := inGainU_le (zfo := zfo) hm
+  have g2 := outLossU_le (zfo := zfo) hm
+  have hst : (0 : ℚ) ≤ (r.steps : ℚ) := Nat.cast_nonneg _
+  have m1 := mul_le_mul_of_nonneg_left g1 hst
+  have m2 := mul_le_mul_of_nonneg_left g2 hst
+  refine ⟨tr, hpath, hlen, ho, hi, by linarith, fun hog => ?_⟩
+  have := hout hog
+  linarith
+
+/-- instance: the tick-crossing one-for-zero exact-in swap of §8 (2 steps, pool price 1): the amount out 1 497 504
+is within one token (+ 2.000004·10^-18) of the exact curve along its path. -/
+example : ∃ (tr : List StepRec), tr.length = 2 ∧
+    ((1497504 : Int) : ℚ) * 10 ^ 18 ≤ sumExactOut false tr ∧
+    sumExactOut false tr - ((2 : Nat) : ℚ) * (1 + 2 / 10 ^ 6) - 10 ^ 18 < ((1497504 : Int) : ℚ) * 10 ^ 18 := by
+  have h : computeSwap true false (run (initPool 100 1000000000000000) (demoOps.take 2)).spf 0
+      ⟨(run (initPool 100 1000000000000000) (demoOps.take 2)).sqrtPrice,
+        (run (initPool 100 1000000000000000) (demoOps.take 2)).tick,
+        (run (initPool 100 1000000000000000) (demoOps.take 2)).liquidity⟩
+      (tickList (run (initPool 100 1000000000000000) (demoOps.take 2))) 1500000 =
+      some ⟨1500000, 1497504, 1500000000000000000000,
+        ⟨1000994507237732597832529718031126170, 1990, 500749875124843813046785138⟩, 2, 1⟩ := by decide +kernel
+  obtain ⟨tr, _, hlen, ho, _, _, hout⟩ :=
+    swap_shortfall_bounded_reachable (s := 100) (f := 1000000000000000) (by decide) ⟨by decide, by decide⟩
+      (demoOps.take 2) (Or.inl rfl) (Or.inr (by decide +kernel)) h
+  exact ⟨tr, hlen, ho, hout rfl⟩
+
+end Rounding
+
+/-! ## 10. swapping there and straight back never returns more than was put in
+
+`CLPool.swap p og zfo spec = some (p', ain, aout, fee)`: the trader pays `ain` (of which `fee` goes to the
+spread-reward address and `ain − fee` to the pool) and receives `aout`.  First swap `A → B` (direction `zfo`), second
+swap `B → A` (direction `!zfo`) on the state the first one left, no operation in between; any kinds, any amounts.
+Proof: potential argument on the exact principal `V0`, `V1` of C01 — each swap pays the pool at least the growth of
+the in-potential and takes at most the fall of the out-potential along its own price path; the positions are the same
+for both swaps; `V1` is non-decreasing and `V0` non-increasing in the sqrt price and they are flat together (empty
+liquidity gaps), so the second swap cannot bring the token-A potential below its starting value without paying at
+least the token-B amount the first swap took out. -/
+
+section ThereAndBack
+open OsmoVerif.CLPool OsmoVerif.CLBook OsmoVerif.CLSolv
+
+/-- FULL, all four combinations of kinds: if the second swap pays the pool (fee excluded) no more `B` than the first
+swap gave out, it returns no more `A` than the first swap paid into the pool (fee excluded); conversely, if it returns
+at least that much `A`, it pays the pool at least the `B` the first swap gave out.  Fees are non-negative. -/
+theorem there_and_back_no_profit {p p1 p2 : Pool} {og1 og2 zfo : Bool} {x y a b fee1 b' a' fee2 : Int}
+    (hinv : Inv p) (hspf : SpfOK p.spf)
+    (h1 : CLPool.swap p og1 zfo x = some (p1, a, b, fee1))
+    (h2 : CLPool.swap p1 og2 (!zfo) y = some (p2, b', a', fee2)) :
+    (b' - fee2 ≤ b → a' ≤ a - fee1) ∧ (a - fee1 ≤ a' → b ≤ b' - fee2) ∧ 0 ≤ fee1 ∧ 0 ≤ fee2 :=
+  there_and_back hinv hspf h1 h2
+
+/-- a swap never takes more of the specified side than specified. -/
+theorem pool_swap_specified_side_bounded {p p' : Pool} {og zfo : Bool} {spec ain aout fee : Int}
+    (h : CLPool.swap p og zfo spec = some (p', ain, aout, fee)) : if og then ain ≤ spec else aout ≤ spec := by
+  obtain ⟨r, _, hex, e1, e2, _⟩ := swap_bal h
+  have := swap_specified_side_bounded (execSwap_spec hex)
+  rw [e1, e2]; exact this
+
+/-- exact-in there, exact-in back with the amount just received: `a' ≤ a − fee₁ ≤ a` (spread factor ≥ 0). -/
+theorem there_and_back_exact_in {p p1 p2 : Pool} {zfo : Bool} {x a b fee1 b' a' fee2 : Int}
+    (hinv : Inv p) (hspf : SpfOK p.spf)
+    (h1 : CLPool.swap p true zfo x = some (p1, a, b, fee1))
+    (h2 : CLPool.swap p1 true (!zfo) b = some (p2, b', a', fee2)) :
+    a' ≤ a - fee1 ∧ a' ≤ a ∧ a ≤ x := by
+  obtain ⟨k1, _, f1, f2⟩ := there_and_back hinv hspf h1 h2
+  have hb : b' ≤ b := by simpa using pool_swap_specified_side_bounded h2
+  have ha : a ≤ x := by simpa using pool_swap_specified_side_bounded h1
+  have := k1 (by omega)
+  exact ⟨this, by omega, ha⟩
+
+/-- exact-out there (request `b`, pay `a`), exact-out back requesting the `a` just paid: if the request is served in
+full (`a' = a`) the trader pays at least the `b` he received: `b ≤ b' − fee₂ ≤ b'`. -/
+theorem there_and_back_exact_out {p p1 p2 : Pool} {zfo : Bool} {x a b fee1 b' a' fee2 : Int}
+    (hinv : Inv p) (hspf : SpfOK p.spf)
+    (h1 : CLPool.swap p false zfo x = some (p1, a, b, fee1))
+    (h2 : CLPool.swap p1 false (!zfo) a = some (p2, b', a', fee2)) (hfull : a' = a) :
+    b ≤ b' - fee2 ∧ b ≤ b' ∧ b ≤ x := by
+  obtain ⟨_, k2, f1, f2⟩ := there_and_back hinv hspf h1 h2
+  have hb : b ≤ x := by simpa using pool_swap_specified_side_bounded h1
+  have := k2 (by omega)
+  exact ⟨this, by omega, hb⟩
+
+/-- for every reachable state. -/
+theorem there_and_back_no_profit_reachable {s f : Int} (hs : 0 < s) (hf : SpfOK f) (ops : List Op) {p1 p2 : Pool}
+    {zfo : Bool} {x a b fee1 b' a' fee2 : Int}
+    (h1 : CLPool.swap (run (initPool s f) ops) true zfo x = some (p1, a, b, fee1))
+    (h2 : CLPool.swap p1 true (!zfo) b = some (p2, b', a', fee2)) : a' ≤ a :=
+  (there_and_back_exact_in (reachable_state_inv hs hf ops).1 (reachable_state_inv hs hf ops).2 h1 h2).2.1
+
+/-- `p1` above is the next state of the history, so "no operation in between" is `ops ++ [swap, swap]`. -/
+theorem there_and_back_is_a_history {p p1 : Pool} {og zfo : Bool} {x a b fee : Int}
+    (h : CLPool.swap p og zfo x = some (p1, a, b, fee)) : step p (.swap og zfo x) = p1 := by
+  simp [step, CLBook.apply, h]
+
+/-- instance on the state of §8: 1 500 000 of token1 in → 1 497 504 of token0 out (crosses tick 1000), straight back
+1 497 504 of token0 in → 1 497 000 of token1 out (crosses it again): `1 497 000 ≤ 1 500 000 − 1 500`. -/
+example :
+    let p := run demoInit (demoOps.take 2)
+    (CLPool.swap p true false 1500000).map (fun x => x.2) = some (1500000, 1497504, 1500) ∧
+    ((CLPool.swap p true false 1500000).bind fun x =>
+      (CLPool.swap x.1 true true 1497504).map fun y => (y.2, y.1.tick)) = some ((1497504, 1497000, 1497), 1) := by
+  decide +kernel
+
+end ThereAndBack
 
 end OsmoVerif.Props.C03
